@@ -58,6 +58,13 @@ func runC01(ctx *Ctx) {
 			c01FirstCredit(ctx, i, c%2, ctx.N(80, 600))
 		}
 	}
+	// credit reaching a wallet while its withdrawal is being settled
+	for c := 0; c < ctx.N(2, 8); c++ {
+		i := nseq + 300 + c
+		if ctx.Want(i) {
+			c01WithdrawDuringCredit(ctx, i, c%2)
+		}
+	}
 	// many agents updating at once (free-running goroutines, both drivers)
 	for c := 0; c < ctx.N(6, 60); c++ {
 		i := nseq + c
@@ -233,4 +240,57 @@ func c01FirstCredit(ctx *Ctx, i, drv, rounds int) {
 		}
 	}
 	ctx.Emit(Case{I: i, Kind: "first-credit-" + driverNames[drv], Desc: map[string]interface{}{"rounds": rounds}, Monitor: mon})
+}
+
+// c01WithdrawDuringCredit: while the withdrawal of a host's wallet is being settled, a client's
+// keep-alive credits that wallet.  Only the credit that was settled may leave the ledger: the
+// credit that arrived meanwhile must still be there.
+func c01WithdrawDuringCredit(ctx *Ctx, i, drv int) {
+	cfg := worldCfg{Drv: drv, Price: "1000", IntervalNs: 60e9, Settle: true}
+	w := newWorld(cfg)
+	defer w.Close()
+	w.aliasAll()
+	for _, o := range []*POp{{Op: "connect", Node: "h1", Host: true, Kind: "geth"}, {Op: "connect", Node: "c1", Kind: "geth"},
+		{Op: "addnode", Wallet: "w1", Node: "h1"}} {
+		w.applyPOp(o)
+	}
+	w.useRealClk = true
+	if _, err := w.update("c1", []string{"h1"}, 1); err != nil {
+		fatal("update: %v", err)
+	}
+	w.useRealClk = false
+	w.mu.Lock()
+	w.clockNow = time.Now().Add(5 * time.Minute)
+	w.mu.Unlock()
+	if _, err := w.update("c1", []string{"h1"}, 2); err != nil { // bills five minutes: the wallet earns
+		fatal("update: %v", err)
+	}
+	acct := store.Account(walletOf("w1"))
+	b0, _ := w.bstore.GetAccountBalance(acct)
+	earned := new(big.Int).Set(&b0.Credit)
+	total0 := w.totalCredit()
+	var during error
+	w.mu.Lock()
+	w.clockNow = time.Now().Add(15 * time.Minute)
+	w.settleHook = func(n int) bool {
+		_, during = w.update("c1", []string{"h1"}, 3) // bills ten more minutes while the settlement is in flight
+		return true
+	}
+	w.mu.Unlock()
+	nonce := w.nextNonce()
+	addr := walletOf("w1")
+	err := w.pay.Withdraw(context.Background(), w.sign(keyFor("w1"), "pool_withdraw", addr, nonce), addr, nonce)
+	w.mu.Lock()
+	w.settleHook = nil
+	w.mu.Unlock()
+	b1, _ := w.bstore.GetAccountBalance(acct)
+	total1 := w.totalCredit()
+	var mon []string
+	want := new(big.Int).Sub(total0, earned)
+	if err == nil && during == nil && total1.Cmp(want) != 0 {
+		mon = append(mon, fmt.Sprintf("c01-withdraw-lost-credit: a wallet that had earned %s was withdrawn while a keep-alive credited it again: the ledger total went from %s to %s instead of %s (only the settled credit may leave the ledger); the wallet now holds %s",
+			earned, total0, total1, want, b1.Credit.String()))
+	}
+	ctx.Emit(Case{I: i, Kind: "withdraw-during-credit-" + driverNames[drv], Desc: map[string]interface{}{"earned": earned.String(), "total_before": total0.String(),
+		"total_after": total1.String(), "wallet_after": b1.Credit.String(), "withdraw_error": fmt.Sprint(err), "update_error": fmt.Sprint(during)}, Monitor: mon})
 }
